@@ -104,6 +104,7 @@ type violation struct {
 }
 
 type world struct {
+	cacheFresh bool // the history ended with a universal reset answered from the current state
 	noSettle   bool // a burst of stimuli is being issued without settling in between
 	concurrent bool // the history contained a burst: the gateway's own scheduler decided interleavings
 	mutatePct  int  // percentage of service messages replaced by a structural mutation (profile mutate)
